@@ -385,7 +385,7 @@ def main():
         sys.exit(0)
 
     rng = random.Random(seed)
-    nprog = 1 if a.tier == "quick" else 16
+    nprog = 3 if a.tier == "quick" else 16
     programs = [gen_program(rng, slack) for _ in range(nprog)]
     rtseed = rng.randrange(1, 1 << 31)
     configs = all_configs()
